@@ -121,3 +121,31 @@ Theorem C12_byte_allocator_element_block : forall K L w s i, wf_plist L = true -
     ref_bytes L (vfl L (getv w s) i) <= b < ref_bytes L (vfl L (getv w s) i) + SA L /\ (SA L | b).
 Proof. exact byte_element_block. Qed.
 Print Assumptions C12_byte_allocator_element_block.
+
+(* move assignment on the general path (unequal non-propagating allocators and a VaryingSize
+   list, or a target without storage) - "also between elements of different varying sizes and
+   with different allocators": whether the target's block is replaced or reused it ends up
+   holding the source's tuple, with its own allocator *)
+Theorem C12_element_move_assignment_general : forall L, wf_plist L = true ->
+  (forall mv, all_ctriv mv L = true) -> all_dtriv L = true ->
+  forall pocma ae d src t fc junk nb, tuple_ok L fc 0 t -> elem_holds L src t ->
+  (ae || pocma || (e_aid d =? e_aid src)) = false ->
+  (fixed_or_plain L && match e_bid d with Some _ => true | None => false end) = false ->
+  let '(d', src', evs, nb') := elem_move_assign pocma ae L d src junk nb in
+  elem_holds L d' t /\ e_aid d' = e_aid d /\
+  e_bid d' = (if e_units d <? ref_bytes L (e_fl src) then Some nb else e_bid d) /\
+  e_mem src' = e_mem src /\ e_fl src' = e_fl src /\ e_bid src' = e_bid src.
+Proof. exact elem_move_assign_general_spec. Qed.
+Print Assumptions C12_element_move_assignment_general.
+
+Theorem C12_element_allocator_extended_move_construction : forall L, wf_plist L = true ->
+  (forall mv, all_ctriv mv L = true) ->
+  forall ae src t fc aid junk nb, tuple_ok L fc 0 t -> elem_holds L src t ->
+  let '(d, src', evs, fresh) := elem_move_alloc ae L src aid junk nb in
+  elem_holds L d t /\
+  (if ae || (aid =? e_aid src)
+   then e_bid d = e_bid src /\ e_bid src' = None /\ fresh = false
+   else e_bid d = Some nb /\ e_aid d = aid /\ e_units d = e_units src /\ e_bid src' = e_bid src /\
+        e_mem src' = e_mem src /\ fresh = true).
+Proof. exact elem_move_alloc_spec. Qed.
+Print Assumptions C12_element_allocator_extended_move_construction.
